@@ -301,7 +301,7 @@ def _single(case, ctx):
     shape = case["shape"]
     fn, ncoef, _ = S.SHAPES[shape]
     coef = _true_coef(shape, rng)
-    n = case["n"]
+    n = max(case["n"], len(coef))  # (fewer support points than parameters is an ill-posed request: scipy refuses it)
     x = np.sort(rng.uniform(0.3, 12.0, n))
     y = np.asarray(fn(x, *coef), float)
     y = y * (1 + case["noise"] * rng.standard_normal(n))
